@@ -162,6 +162,8 @@ class Engine:
         self.m_thread = None
         self.seq = 0
         self.cur = None
+        self.gen_holder = []
+        self.recall_holder = []
 
     # ---- trace --------------------------------------------------------------
     def ev(self, kind, **kw):
@@ -311,6 +313,7 @@ class Engine:
         except Exception as e:   # task failure
             job.exc = e
         job.completed_seq = self.counter("completed")
+        job.state = "callback"   # tasks finished: no longer "in flight"
         self.ev("cb_enter", jid=job.jid, failed=job.exc is not None)
         try:
             job.callback(job)
@@ -529,7 +532,15 @@ def _run_call(eng, par, k, call, gen_mode):
     rec = {"k": k, "n": call["n"], "base": base, "outcome": None, "results": None, "exception": None,
            "consumer": [], "forced": 0, "steps_done": 0}
     eng.ev("call_start")
-    eng.m_start("call", lambda: par(inp))
+    if gen_mode:
+        # the generator object is only ever referenced from eng.gen_holder, and only touched
+        # by commands running in M: dropping it really happens in the thread that created it
+        def _call():
+            eng.gen_holder = [par(inp)]
+            return "GEN"
+        eng.m_start("call", _call)
+    else:
+        eng.m_start("call", lambda: par(inp))
     if not gen_mode:
         for step in call.get("steps", []):
             if step[0] not in ("c", "late"):
@@ -574,7 +585,8 @@ def _run_call(eng, par, k, call, gen_mode):
         rec["outcome"] = "raised"
         rec["exception"] = _exc_desc(val)
         return rec
-    state = {"gen": val, "finished": False}
+    state = {"finished": False}
+    del val
     rec["outcome"] = "generator"
     rec["results"] = []
     ordered = eng.spec["return_as"] == "generator"
@@ -662,12 +674,11 @@ def _run_call(eng, par, k, call, gen_mode):
             break
         if state["finished"] and op != "recall":
             continue
-        gen = state["gen"]
         if op == "next":
             rec["pending"] = "next"
             avail = available() if ordered else None
             eng.ev("consumer_start", op="next", available=avail)
-            eng.m_start("next", lambda: next(gen))
+            eng.m_start("next", lambda: next(eng.gen_holder[0]))
             if avail:
                 # promptness: must return with no further completion issued
                 if not eng.m_wait("next() whose result and all earlier ones are complete"):
@@ -683,48 +694,52 @@ def _run_call(eng, par, k, call, gen_mode):
         elif op == "exhaust":
             rec["pending"] = "exhaust"
             eng.ev("consumer_start", op="exhaust")
-            eng.m_start("exhaust", lambda: list(gen))
+            eng.m_start("exhaust", lambda: list(eng.gen_holder[0]))
         elif op == "close":
             rec["pending"] = "close"
             eng.ev("consumer_start", op="close")
-            eng.m_start("close", gen.close)
+            eng.m_start("close", lambda: eng.gen_holder[0].close())
             if not eng.m_wait("generator.close() to return"):
                 break
             collect()
         elif op == "drop":
             rec["pending"] = "drop"
             eng.ev("consumer_start", op="drop")
-            state["gen"] = None
-            del gen
-
             def _drop():
+                del eng.gen_holder[:]
                 gc.collect()
-            # the only remaining references: the lambda closures of finished commands are gone
             eng.m_start("drop", _drop)
             if not eng.m_wait("gc of the dropped generator to return"):
                 break
             collect()
         elif op == "recall":
-            if state["finished"]:
+            # only while the run is certainly unfinished: some batch has not completed yet
+            if state["finished"] or not any(j.call_no == k and j.state in ("inflight", "running") for j in eng.jobs):
                 continue
             rec["pending"] = "recall"
             eng.ev("consumer_start", op="recall")
             small = [(eng.task, (base + 900 + i,), {}) for i in range(3)]
-            eng.m_start("recall", lambda: par(small))
+
+            def _recall():
+                r = par(small)
+                eng.recall_holder.append(r)   # wrongly accepted: keep it alive, never consume it
+                return repr(r)
+            eng.m_start("recall", _recall)
             if not eng.m_wait("overlapping Parallel call to return or raise"):
                 break
             collect()
     if not eng.hang and not state["finished"]:
         if free_m("previous consumer action to return") and not state["finished"]:
-            gen = state["gen"]
             rec["pending"] = "exhaust"
             eng.ev("consumer_start", op="exhaust")
-            eng.m_start("exhaust", lambda: list(gen))
+            eng.m_start("exhaust", lambda: list(eng.gen_holder[0]))
             free_m("exhausting the generator")
     elif not eng.hang:
         free_m("last consumer action")
     if eng.hang:
         rec["outcome"] = "hang"
-    state["gen"] = None
+    eng.m_start("release", lambda: eng.gen_holder.clear())
+    eng.m_wait("release")
+    eng.m_result = None
     eng.ev("call_end", outcome=rec["outcome"])
     return rec
